@@ -155,6 +155,19 @@ CLAIMED: dict[str, tuple[str, str, str, str]] = {
             "TS/Rust `else if` chains are not generated (undocumented); quick tier samples 4 500 functions per "
             "language, thorough runs all.",
             TECH),
+    "C02": ("DESIGN.md §5 C02",
+            "spec/MagicNumbers.tla fixes the item universe (syntactic slot x literal spelling per language: "
+            "~30 slots incl. f-string/template interpolation, lambda, ternary, comprehension, slice, unary minus, "
+            "two identical literals on one line; int, float, hex, underscore, exponent, suffixed spellings), the "
+            "exemption predicate of the docs and the expected count per item for every configuration; TLC "
+            "enumerates all allowed_numbers subsets x max_small_integer x file kinds per language (864 cases) and "
+            "checks the allowed_numbers delta law and exactly-once as properties of the model; the rendered "
+            "universe (self-checked, literal-free scaffolding, non-literal probes) is linted under every "
+            "configuration and MagicNumbersTrace.tla judges Missed / Spurious / Duplicate / WrongValue / "
+            "NonLiteralReported per item, cross-checked with a Python mirror for diagnosis.",
+            "Numeric identity across types (1_000_000 vs 1e6) and negative allowed entries are not exercised; "
+            "Rust enum discriminants are not generated (not documented for Rust).",
+            TECH),
 }
 
 REASON_NOT_YET = ("no check registered yet in this build; the TLA+ technique applies (see DESIGN.md §5) "
